@@ -75,10 +75,12 @@ def realise(d, rng, kind=None):
         if d["wNonPositive"]:
             if rng.random() < 0.35:
                 w = [-v for v in w]  # all weights strictly negative (a normalisation must not turn them positive)
+            elif d["ep"] in ("iso", "isoModel") and rng.random() < 0.3:
+                w[rng.randrange(m)] = float("nan")  # not a positive number either
             else:
                 w[rng.randrange(m)] = rng.choice([0.0, -1.0])
         out["w"] = w
-    out["level"] = rng.choice([0.25, 0.5, 0.75, 0.1]) if d["levelValid"] else rng.choice([0, 1, -0.5, 1.5, 2])
+    out["level"] = rng.choice([0.25, 0.5, 0.75, 0.1]) if d["levelValid"] else rng.choice([0, 1, -0.5, 1.5, 2, float("nan")])
     out["functional"] = d["f"] if d["f"] != "unknown" else rng.choice(["XXX", "Mean", "quantil", ""])
     out["bin_method"] = rng.choice(["quantile", "uniform", "sturges", "auto"]) if d["binMethodValid"] else rng.choice(["XXX", "Quantile", ""])
     out["n_bins"] = rng.randint(2, 8) if d["nBinsOk"] else rng.choice([1, 0, -3])
@@ -225,6 +227,8 @@ class C20(Prop):
         return r
 
     def compare(self, case, io, mo):
+        if mo["outcome"] == "exception" and io["outcome"] != "ok":
+            return None  # "an exception is raised" (mis-shaped weights handed to a score): the class is not prescribed
         if io["outcome"] != mo["outcome"]:
             return f"{case['desc']['ep']}: implementation {io['outcome']} ({io.get('cls', '')} {io.get('msg', '')!r}) vs model {mo['outcome']}"
         return None
